@@ -20,13 +20,21 @@ type Solver struct {
 }
 
 func solvers(timeoutS int) []Solver {
+	// The budget of a race is CPU time (ulimit -t), not wall-clock time: whether an obligation is decided
+	// must not depend on how busy the machine is (session 4: with six checks running side by side, 8 s
+	// obligations ran into the 45 s wall-clock limit and were reported as undecided). The wall-clock
+	// limit is only a backstop at six times the budget.
+	wall := timeoutS * 6
+	lim := func(cmd ...string) []string {
+		return append([]string{"sh", "-c", fmt.Sprintf("ulimit -t %d; exec \"$@\"", timeoutS), "sh"}, cmd...)
+	}
 	return []Solver{
-		{Name: "z3-new-5.1.0", Cmd: []string{"z3-new", fmt.Sprintf("-T:%d", timeoutS)}},
-		{Name: "z3-4.8.12", Cmd: []string{"z3", fmt.Sprintf("-T:%d", timeoutS)}},
-		{Name: "cvc5-1.0", Cmd: []string{"cvc5", "--lang=smt2", fmt.Sprintf("--tlimit=%d", timeoutS*1000)}},
+		{Name: "z3-new-5.1.0", Cmd: lim("z3-new", fmt.Sprintf("-T:%d", wall))},
+		{Name: "z3-4.8.12", Cmd: lim("z3", fmt.Sprintf("-T:%d", wall))},
+		{Name: "cvc5-1.0", Cmd: lim("cvc5", "--lang=smt2", fmt.Sprintf("--tlimit=%d", wall*1000))},
 		// pattern-based instantiation only: answers unsat or unknown; decides array-copy invariants the
 		// model-based configurations above need 10-25 s for (session 4: inode.Read/R-copied) in 3 s
-		{Name: "z3-new-5.1.0(ematch)", Cmd: []string{"z3-new", fmt.Sprintf("-T:%d", timeoutS), "smt.mbqi=false", "smt.auto_config=false"}},
+		{Name: "z3-new-5.1.0(ematch)", Cmd: lim("z3-new", fmt.Sprintf("-T:%d", wall), "smt.mbqi=false", "smt.auto_config=false")},
 	}
 }
 
